@@ -135,6 +135,24 @@ func worker(chk *checks.Check, tier string, seed int64, k, n int) {
 				ctx.HarnessError("worker %d: unexpected panic in harness: %v\n%s", k, r, debug.Stack())
 			}
 		}()
+		if tier == "thorough" && os.Getenv("VERIF_NO_QUICK_PASS") == "" {
+			// a thorough run covers at least what the quick tier covers: everything once at the quick bounds (with the
+			// quick budget, doubled), then the deep pass with what remains of the thorough budget
+			full := ctx.Deadline
+			qb := chk.QuickBudget
+			if qb == 0 {
+				qb = 60 * time.Second
+			}
+			ctx.QuickPass = true
+			ctx.Deadline = time.Now().Add(2 * qb)
+			if !full.IsZero() && ctx.Deadline.After(full) {
+				ctx.Deadline = full
+			}
+			chk.Run(ctx)
+			ctx.QuickPass = false
+			ctx.Deadline = full
+			ctx.Bound("thorough_runs_everything_at_the_quick_bounds_first", true)
+		}
 		chk.Run(ctx)
 	}()
 	out := bufio.NewWriter(os.Stdout)
